@@ -24,6 +24,7 @@ from ..engine import Ctx
 from ..report import Report
 from ..rules import hashrule
 from ..rules import q
+from ..rules import valnum
 from ..source import AnalysisError
 from ..source import norm
 
@@ -57,6 +58,10 @@ def run(ctx: Ctx, rep: Report) -> None:
     primitives(ctx, rep)
     can_exe(ctx, rep)
     publish(ctx, rep)
+    perm_align(ctx, rep)
+    # a swap that is only tried out is taken back on every exit
+    from ..rules.undo import rule_undo
+    rule_undo(ctx, rep, ('bqskit/passes/mapping/',), 1)
     g = ctx.cls('bqskit/qis/graph.py:CouplingGraph')
     hashrule.rule_hash(ctx, rep, [g])
 
@@ -378,6 +383,76 @@ def can_exe(ctx: Ctx, rep: Report) -> None:
         'the connectivity test is no longer '
         'cg.get_subgraph([pi[i] for i in op.location]).is_fully_connected()',
         key='connected',
+    )
+
+
+def perm_align(ctx: Ctx, rep: Report) -> None:
+    """ALIGN (PAM): inside the loop over (local permutation, its inverse,
+    the global form of the inverse), the physical location under which a
+    pre-synthesised block is looked up and the input permutation that is
+    published for it must be two views of the *same* local permutation.
+    The global permutation of the triple is built from one of the zipped
+    lists; the location must be enumerated with the loop variable that runs
+    over that very list."""
+    f = ctx.fn(MAP + 'pam.py:PermutationAwareMappingAlgorithm._get_best_perm')
+    rep.seen(f.qualname)
+    rd = ctx.rd(f)
+    g = ctx.cfg(f)
+    rep.count()
+    ok, why = False, 'loop over zip(local, inverse, global) not found'
+    for lp in g.nodes:
+        if lp.kind != 'for' or not isinstance(lp.stmt.target, ast.Tuple):
+            continue
+        it = lp.stmt.iter
+        if isinstance(it, ast.Name):     # `perm_iter = zip(...)`
+            ds = [d.value for d in rd.reaching(lp, it.id)
+                  if d.value is not None]
+            it = ds[0] if len(ds) == 1 else it
+        if not (isinstance(it, ast.Call) and norm(it.func) == 'zip'
+                and len(it.args) == len(lp.stmt.target.elts)):
+            continue
+        lists = [norm(a) for a in it.args]
+        tgts = [norm(t) for t in lp.stmt.target.elts]
+        # which zipped list is each zipped list derived from?
+        derived = {}
+        for name in lists:
+            for d in rd.reaching(lp, name):
+                v = d.value
+                if isinstance(v, ast.ListComp) and len(v.generators) == 1 \
+                        and norm(v.generators[0].iter) in lists:
+                    derived[name] = norm(v.generators[0].iter)
+        body = g.in_loop_body(lp)
+        locs = [n for n in g.nodes if n.id in body and isinstance(
+            n.stmt, ast.Assign) and norm(n.stmt.targets[0]) == (
+            'physical_location') and isinstance(n.stmt.value, ast.ListComp)]
+        trip = [c.args[0] for n in g.nodes if n.id in body
+                for c in n.calls() if norm(c.func).endswith(
+                    'pre_circ_post_triples.append') and c.args
+                and isinstance(c.args[0], ast.Tuple)]
+        if len(locs) != 1 or not trip:
+            why = 'physical_location / triple construction not found'
+            continue
+        pub = norm(trip[0].elts[0])            # the published input perm
+        if pub not in tgts:
+            why = f'the published input permutation `{pub}` is not a loop '\
+                  'variable'
+            continue
+        src_list = derived.get(lists[tgts.index(pub)])
+        if src_list is None:
+            why = f'`{pub}` is not derived from another zipped list'
+            continue
+        want = tgts[lists.index(src_list)]
+        got = norm(locs[0].stmt.value.generators[0].iter)
+        ok = got == want
+        why = (f'physical_location enumerates `{got}`, the published input '
+               f'permutation `{pub}` is the global form of `{want}`')
+    rep.check(
+        ok, 'ALIGN', 'PAM._get_best_perm:location', f.path, f.lineno,
+        'the looked-up location and the published input permutation come '
+        'from the same local permutation',
+        f'{why}: the block circuit is chosen for a differently labelled '
+        'path than the one it lands on (identical for 2-qudit blocks and '
+        'involutions, wrong for a 3-cycle)', key='align',
     )
 
 
